@@ -19,6 +19,10 @@ type Spec struct {
 	GoMaxProcs int `json:"gomaxprocs,omitempty"`
 	// OneCPU makes the driver start the child pinned to a single processor (taskset), so that runtime.NumCPU() is 1.
 	OneCPU bool `json:"one_cpu,omitempty"`
+	// CPUQuota makes the driver start the child in a mount namespace of its own in which /sys/fs/cgroup shows a CPU quota
+	// of half a processor (cgroup v2 cpu.max "50000 100000", cgroup v1 cpu.cfs_quota_us / cpu.cfs_period_us): what a
+	// process sees in a container started with --cpus=0.5.
+	CPUQuota bool `json:"cpu_quota,omitempty"`
 }
 
 // Begin is printed (one line, prefixed "BEGIN ") before a run starts.
@@ -86,6 +90,8 @@ type ReplayFile struct {
 	BaseSeed uint64 `json:"base_seed,omitempty"`
 	// OneCPU: the run was observed in a child pinned to one processor (runtime.NumCPU() == 1); replays do the same.
 	OneCPU bool `json:"one_cpu,omitempty"`
+	// CPUQuota: the run was observed in a child that sees a container CPU quota of half a processor; replays do the same.
+	CPUQuota bool `json:"cpu_quota,omitempty"`
 	// Explore: a hand-written file (experiments): the configuration is run under its own seeded strategy instead of
 	// following a recorded schedule.
 	Explore bool `json:"explore,omitempty"`
